@@ -18,7 +18,7 @@ from .engine import Violation, SetupRejected, Unresolvable
 from .lang import Lang, canon, gen_spec, small_fixed_specs, corpus
 from .refmodel import RefModel, RefAsset, RefAssoc, RefAttacker
 from .world import BaseWorld, call, weighted
-from . import findings, faults
+from . import findings, faults, legacy
 
 RULE = ('one run = one language (generator / hand-written corpus / coreLang), 1-2 models on one '
         'class factory and a seeded history of 10-60 public-API calls with valid, boundary and '
@@ -102,11 +102,25 @@ def new_run_for(prop, rng, tier):
             'add_ep': rng.choice([0, 2, 3]),
             'remove_ep': rng.choice([0, 1, 2]),
             'restart': 0, 'foreign': 0, 'set_extras': rng.choice([0, 0, 1]),
-            'set_assoc_extras': 0,
+            'set_assoc_extras': 0, 'legacy': 0, 'neo_ingest': 0, 'neo_import': 0,
+            'neo_ingest_graph': 0,
         },
     }
     if prop == 'C06':
         cfg['p_invalid'] = rng.choice([0.3, 0.5])
+    if prop == 'C19':
+        cfg['w']['neo_ingest'] = rng.choice([2, 3])
+        cfg['w']['neo_import'] = rng.choice([2, 3])
+        cfg['w']['neo_ingest_graph'] = rng.choice([0, 1, 2])
+        cfg['peer_faults'] = rng.random() < 0.4
+        cfg['odd_names'] = rng.random() < 0.3
+    if prop == 'C18':
+        cfg['w']['legacy'] = rng.choice([2, 3])
+        cfg['w']['set_extras'] = 0
+        cfg['w']['add_attacker'] = rng.choice([1, 2])
+        cfg['w']['add_ep'] = rng.choice([2, 4])
+        cfg['odd_names'] = rng.random() < 0.3
+        cfg['max_restarts'] = 3
     if prop == 'C07':
         cfg['w']['restart'] = rng.choice([1, 2, 3])
         cfg['w']['foreign'] = rng.choice([0, 1])
@@ -301,6 +315,8 @@ class ModelWorld(BaseWorld):
         self.restarts = 0
         self.paths_used = []
         self.removed_since = False
+        self.neo_server = None
+        self.neo_expected = {}      # db -> {'nodes': [...], 'rels': [...], 'single_model': view|None}
         if desc.get('source') == 'corelang':
             self.count('probe:corelang')
         if self.L.dup_names:
@@ -518,7 +534,7 @@ class ModelWorld(BaseWorld):
         if len(ref.order) < 2:
             table.append((10, 'add_asset'))
         if self.restarts >= self.cfg.get('max_restarts', 4):
-            table = [(x, k) for x, k in table if k not in ('restart', 'foreign')]
+            table = [(x, k) for x, k in table if k not in ('restart', 'foreign', 'legacy')]
         for _ in range(8):
             kind = weighted(rng, table)
             op = getattr(self, 'gen_' + kind)(rng, mi, ref)
@@ -807,6 +823,42 @@ class ModelWorld(BaseWorld):
         return {'op': 'restart', 'fmt': fmt, 'reuse': rng.random() < 0.4, 'how': how,
                 'fault': self._gen_fault(rng),
                 'hashseed': rng.choice([1, 2, 7, 99, 12345])}
+
+    def gen_legacy(self, rng, mi, ref):
+        ids = [ref.assets[h].id for h in ref.order]
+        rng.shuffle(ids)
+        nlinks = len(legacy.pairwise_links(ref))
+        neps = sum(len(st) for k in ref.attacker_order for _, st in ref.attackers[k].eps)
+        kind = weighted(rng, [(3, 'json'), (2, 'yaml'), (4, 'scad')])
+        if kind == 'scad':
+            return {'op': 'legacy', 'kind': 'scad', 'flip': [rng.random() < 0.5 for _ in range(nlinks)],
+                    'ep_flip': [rng.random() < 0.5 for _ in range(neps)],
+                    'perm': rng.randrange(7), 'all_defenses': rng.random() < 0.3}
+        return {'op': 'legacy', 'kind': '0.0.39', 'fmt': kind, 'wrapper': rng.random() < 0.6,
+                'shorthand': rng.random() < 0.5, 'all_defenses': rng.random() < 0.4,
+                'scalar_targets': rng.random() < 0.3, 'order': ids}
+
+    def _gen_peer_fault(self, rng):
+        if self.cfg.get('peer_faults') and rng.random() < 0.3:
+            return rng.choice(['connect', 'commit', 'delete'])
+        return None
+
+    def gen_neo_ingest(self, rng, mi, ref):
+        return {'op': 'neo_ingest', 'delete': rng.random() < 0.7, 'db': rng.choice([0, 0, 1]),
+                'fault': self._gen_peer_fault(rng)}
+
+    def gen_neo_import(self, rng, mi, ref):
+        dbs = [k for k, v in self.neo_expected.items() if v.get('single_model') is not None]
+        if not dbs:
+            return None
+        return {'op': 'neo_import', 'db': rng.choice(sorted(dbs)), 'row_seed': rng.randrange(10 ** 6)}
+
+    def gen_neo_ingest_graph(self, rng, mi, ref):
+        if not ref.order:
+            return None
+        return {'op': 'neo_ingest_graph', 'delete': rng.random() < 0.7, 'db': rng.choice([0, 1]),
+                'attach': rng.random() < 0.5, 'analyse': rng.random() < 0.5,
+                'fault': self._gen_peer_fault(rng)}
 
     def gen_foreign(self, rng, mi, ref):
         ids = [ref.assets[h].id for h in ref.order]
@@ -1248,6 +1300,8 @@ class ModelWorld(BaseWorld):
         att = {a.id: a for a in new_model.attackers}
         for k in ref.attacker_order:
             self.obj[k] = att[ref.attackers[k].id]
+        for h in list(ref.order) + list(ref.assoc_order) + list(ref.attacker_order):
+            self.owner[h] = mi
         self.models[mi] = new_model
         self.freed_ids[mi] = []
         self.freed_names[mi] = []
@@ -1457,6 +1511,315 @@ class ModelWorld(BaseWorld):
         if order != sorted(order):
             self.count('probe:foreign_permuted_order')
         self.check_model(mi, where=where)
+        return 'ok'
+
+    # -- legacy formats (C18)
+    @staticmethod
+    def _c18_view(todict, with_names=True):
+        """Model._to_dict() -> what C18 compares."""
+        assets = {}
+        for k, v in todict['assets'].items():
+            v = _plain(v)
+            assets[int(k)] = {'name': v['name'], 'type': v['type'],
+                              'defenses': {n: float(x) for n, x in v.get('defenses', {}).items()}}
+        links = set()
+        for e in todict['associations']:
+            for cls, fields in e.items():
+                if cls == 'extras':
+                    continue
+                (f1, m1), (f2, m2) = list(fields.items())
+                for a in m1:
+                    for b in m2:
+                        links.add((cls, f1, int(a), f2, int(b)))
+        eps = set()
+        for k, v in todict['attackers'].items():
+            for a, e in v['entry_points'].items():
+                for st in e['attack_steps']:
+                    eps.add((int(k), int(a), st))
+        return {'assets': assets, 'links': sorted(links), 'entry_points': sorted(eps),
+                'attackers': sorted(int(k) for k in todict['attackers'])}
+
+    def _c18_expected(self, ref):
+        assets = {}
+        for h in ref.order:
+            a = ref.assets[h]
+            defaults = self.L.defenses(a.type)
+            assets[a.id] = {'name': a.name, 'type': a.type,
+                            'defenses': {k: v for k, v in a.defenses.items() if v != defaults[k]}}
+        links = set()
+        for cls, l, r in legacy.pairwise_links(ref):
+            info = self.L.assoc_by_cls[cls]
+            links.add((cls, info.lf, ref.assets[l].id, info.rf, ref.assets[r].id))
+        eps = set()
+        for k in ref.attacker_order:
+            at = ref.attackers[k]
+            for h, steps in at.eps:
+                for st in steps:
+                    eps.add((at.id, ref.assets[h].id, st))
+        return {'assets': assets, 'links': sorted(links), 'entry_points': sorted(eps),
+                'attackers': sorted(ref.attackers[k].id for k in ref.attacker_order)}
+
+    def do_legacy(self, op, mi, model, ref):
+        from maltoolbox.translators import updater, securicad
+        # what the legacy formats cannot express is dropped from the reference first
+        for h in ref.order:
+            ref.assets[h].extras = {}
+        for sh in ref.assoc_order:
+            ref.assocs[sh].extras = {}
+        if op['kind'] == 'scad':
+            path = self.fresh_path('.sCAD')
+            legacy.write_scad(ref, self.L, path, op)
+            o = call(securicad.load_model_from_scad_archive, path, self.lg, self.factory)
+            where = 'load_model_from_scad_archive'
+            # the archive has no attacker names and only pairwise links
+            for k in ref.attacker_order:
+                ref.attackers[k].name = f'Attacker:{ref.attackers[k].id}'
+            pairs = legacy.pairwise_links(ref)
+            for sh in list(ref.assoc_order):
+                ref.remove_assoc(sh)
+                self.obj.pop(sh, None)
+            for cls, l, r in pairs:
+                nh = self.new_handle('s')
+                ref.add_assoc(RefAssoc(nh, cls, [l], [r]))
+            ref.name = path
+            self.count('probe:legacy_scad')
+            if any(op.get('flip', [])):
+                self.count('probe:legacy_scad_flipped_orientation')
+        else:
+            path = self.fresh_path('.' + ('json' if op['fmt'] == 'json' else 'yml'))
+            legacy.write_0_0_39(ref, self.L, path, op)
+            o = call(updater.load_model_from_version_0_0_39, path, self.factory)
+            where = f'load_model_from_version_0_0_39(*.{op["fmt"]})'
+            self.count('probe:legacy_0_0_39')
+        self.count('oracle:C18.equal')
+        exp = self._c18_expected(ref)
+        if len({e[:2] for e in exp['entry_points']}) < len(exp['entry_points']):
+            self.count('probe:legacy_several_steps_on_one_asset')
+        if any(self.L.assoc_by_cls[c].name in self.L.dup_names for c, *_ in exp['links']):
+            self.count('probe:legacy_duplicate_named_association')
+        if any(a['type'] not in (self.L.assoc_by_cls[c].lt, self.L.assoc_by_cls[c].rt)
+               for c, _, l, _, r in exp['links'] for a in (exp['assets'][l], exp['assets'][r])):
+            self.count('probe:legacy_subtype_member')
+        if o.raised:
+            self.fail('C18.equal', f'{where} raised {o.exc!r} on a model that the native format '
+                                   f'holds: {len(exp["assets"])} assets, links {exp["links"][:4]}, '
+                                   f'entry points {exp["entry_points"][:4]}')
+        if o.value is None:
+            self.fail('C18.equal', f'{where} returned None')
+        new_model = o.value
+        td = call(new_model._to_dict)
+        if td.raised:
+            self.fail('C18.equal', f'{where}: _to_dict() of the loaded model raised {td.exc!r}')
+        got = self._c18_view(td.value)
+        if got != exp:
+            self.fail('C18.equal', f'{where}: loaded model differs from the equivalent native model\n'
+                      + _obs_diff(exp, got))
+        # ... and from what the native loader makes of the native file of the same model
+        npath = self.fresh_path('.json')
+        doc = {'metadata': {'name': ref.name}, 'assets': {}, 'associations': [], 'attackers': {}}
+        view = ref.to_dict_view()
+        doc['assets'] = {str(k): v for k, v in view['assets'].items()}
+        doc['associations'] = view['associations']
+        doc['attackers'] = {str(k): {'name': v['name'], 'entry_points': {
+            str(a): e for a, e in v['entry_points'].items()}} for k, v in view['attackers'].items()}
+        with open(npath, 'w') as f:
+            json.dump(doc, f)
+        n = call(self.Model.load_from_file, npath, self.factory)
+        if not n.raised:
+            nv = self._c18_view(n.value._to_dict())
+            if nv != got:
+                self.fail('C18.equal', f'{where}: differs from the native loader on the equivalent '
+                                       f'native file\n' + _obs_diff(nv, got))
+        self._rebind(mi, new_model)
+        self.restarts += 1
+        self.key_events += self.prop == 'C18'
+        self.check_model(mi, where=where)
+        return 'ok'
+
+    # -- Neo4j peer (C19)
+    def _neo(self):
+        from . import fakeneo
+        if self.neo_server is None:
+            self.neo_server = fakeneo.Server()
+        return self.neo_server
+
+    @staticmethod
+    def _db_canon(d):
+        def cn(n):
+            return [n['labels'], sorted((k, str(v)) for k, v in n['props'].items())]
+        nodes = sorted(canon(cn(n)) for n in d['nodes'])
+        rels = sorted(canon([cn(d['nodes'][r['start']]), r['type'], cn(d['nodes'][r['end']])])
+                      for r in d['rels'])
+        return {'nodes': nodes, 'rels': rels}
+
+    def _model_export(self, ref):
+        def cn(a):
+            return [[a.type], sorted([('asset_id', str(a.id)), ('name', a.name), ('type', a.type)])]
+        nodes = sorted(canon(cn(ref.assets[h])) for h in ref.order)
+        rels = []
+        for cls, l, r in legacy.pairwise_links(ref):
+            info = self.L.assoc_by_cls[cls]
+            rels.append(canon([cn(ref.assets[l]), info.lf, cn(ref.assets[r])]))
+            rels.append(canon([cn(ref.assets[r]), info.rf, cn(ref.assets[l])]))
+        return {'nodes': nodes, 'rels': sorted(rels)}
+
+    def _with_peer(self, fault, fn, *a, **kw):
+        import maltoolbox.ingestors.neo4j as n4
+        server = self._neo()
+        server.fault = fault
+        server.fired = []
+        real = n4.Graph
+        n4.Graph = server.graph_class()
+        try:
+            return call(fn, *a, **kw)
+        finally:
+            n4.Graph = real
+            server.fault = None
+
+    def _check_db(self, db, clause, where):
+        server = self._neo()
+        got = self._db_canon(server.db(('bolt://sim', f'db{db}')))
+        exp = self.neo_expected.get(db, {'nodes': [], 'rels': []})
+        self.count('oracle:' + clause)
+        if got['nodes'] != exp['nodes'] or got['rels'] != exp['rels']:
+            self.fail(clause, f'{where}: content of the database differs from what should have been '
+                              f'sent\n' + _obs_diff({'nodes': exp['nodes'], 'rels': exp['rels']}, got))
+
+    def do_neo_ingest(self, op, mi, model, ref):
+        import maltoolbox.ingestors.neo4j as n4
+        db = op.get('db', 0)
+        fault = op.get('fault')
+        if fault == 'delete' and not op.get('delete'):
+            fault = None
+        o = self._with_peer(fault, n4.ingest_model, model, 'bolt://sim', 'u', 'p', f'db{db}',
+                            delete=bool(op.get('delete')))
+        where = f'ingest_model(delete={bool(op.get("delete"))}, db{db})'
+        fired = list(self._neo().fired)
+        exp = self.neo_expected.setdefault(db, {'nodes': [], 'rels': [], 'single_model': None})
+        if fired:
+            self.count('fault:peer_' + fired[0])
+            self.count('oracle:C19.no_partial_success')
+            if not o.raised:
+                self.fail('C19.no_partial_success', f'{where} returned normally although the peer '
+                                                    f'failed at {fired[0]}')
+            if fired[0] == 'commit' and op.get('delete'):
+                exp.update(nodes=[], rels=[], single_model=None)    # delete_all went through
+            self._check_db(db, 'C19.no_partial_success', where + f' [peer fault {fired[0]}]')
+            return 'peer_failed'
+        if o.raised:
+            self.fail('C19.model_export', f'{where} raised {o.exc!r}')
+        ex = self._model_export(ref)
+        if op.get('delete'):
+            exp.update(nodes=ex['nodes'], rels=ex['rels'], single_model=self._c18_expected(ref))
+        else:
+            was_empty = not exp['nodes'] and not exp['rels']
+            exp.update(nodes=sorted(exp['nodes'] + ex['nodes']), rels=sorted(exp['rels'] + ex['rels']),
+                       single_model=self._c18_expected(ref) if was_empty else None)
+        self._check_db(db, 'C19.model_export', where)
+        self.key_events += self.prop == 'C19'
+        self.count('probe:model_ingested')
+        if len(ex['rels']) and any(len(ref.assocs[sh].left) > 1 or len(ref.assocs[sh].right) > 1
+                                   for sh in ref.assoc_order):
+            self.count('probe:ingest_multi_member_association')
+        return 'ok'
+
+    def do_neo_import(self, op, mi, model, ref):
+        import maltoolbox.ingestors.neo4j as n4
+        db = op.get('db', 0)
+        exp = self.neo_expected.get(db)
+        if not exp or exp.get('single_model') is None:
+            raise Unresolvable()
+        self._neo().row_seed = op.get('row_seed', 0)
+        o = self._with_peer(None, n4.get_model, 'bolt://sim', 'u', 'p', f'db{db}', self.lg, self.factory)
+        where = f'get_model(db{db}) with row order {op.get("row_seed")}'
+        if self._neo().unknown_query:
+            from .engine import HarnessError
+            raise HarnessError('get_model sent a query the stand-in does not know: '
+                               + self._neo().unknown_query)
+        self.count('oracle:C19.import')
+        want = {'assets': {k: {'name': v['name'], 'type': v['type']}
+                           for k, v in exp['single_model']['assets'].items()},
+                'links': exp['single_model']['links']}
+        if o.raised:
+            self.fail('C19.import', f'{where} raised {o.exc!r}; the database holds '
+                                    f'{len(want["assets"])} assets, links {want["links"][:4]}')
+        if o.value is None:
+            self.fail('C19.import', f'{where} returned None; the database holds '
+                                    f'{len(want["assets"])} assets, links {want["links"][:4]}')
+        td = call(o.value._to_dict)
+        if td.raised:
+            self.fail('C19.import', f'{where}: _to_dict() of the imported model raised {td.exc!r}')
+        v = self._c18_view(td.value)
+        got = {'assets': {k: {'name': a['name'], 'type': a['type']} for k, a in v['assets'].items()},
+               'links': v['links']}
+        if got != want:
+            self.fail('C19.import', f'{where}: imported model differs from the exported one\n'
+                      + _obs_diff(want, got))
+        self.key_events += self.prop == 'C19'
+        self.count('probe:model_imported')
+        if any(l == r for _, _, l, _, r in want['links']):
+            self.count('probe:import_with_self_link')
+        pairs = {}
+        for cls, _, l, _, r in want['links']:
+            pairs.setdefault(frozenset((l, r)), set()).add(cls)
+        if any(len(c) > 1 for c in pairs.values()):
+            self.count('probe:import_two_associations_one_pair')
+        return 'ok'
+
+    def do_neo_ingest_graph(self, op, mi, model, ref):
+        import maltoolbox.ingestors.neo4j as n4
+        from maltoolbox.attackgraph import AttackGraph
+        from maltoolbox.attackgraph.analyzers.apriori import calculate_viability_and_necessity
+        db = op.get('db', 0)
+        g = call(AttackGraph, self.lg, model)
+        if g.raised:
+            return 'generation_failed'      # C01/C02 territory
+        g = g.value
+        if op.get('attach'):
+            if call(g.attach_attackers).raised:
+                return 'generation_failed'
+        if op.get('analyse'):
+            if call(calculate_viability_and_necessity, g).raised:
+                return 'generation_failed'
+        fault = op.get('fault')
+        if fault == 'delete' and not op.get('delete'):
+            fault = None
+        o = self._with_peer(fault, n4.ingest_attack_graph, g, 'bolt://sim', 'u', 'p', f'db{db}',
+                            delete=bool(op.get('delete')))
+        where = f'ingest_attack_graph(delete={bool(op.get("delete"))}, db{db})'
+        fired = list(self._neo().fired)
+        exp = self.neo_expected.setdefault(db, {'nodes': [], 'rels': [], 'single_model': None})
+        if fired:
+            self.count('fault:peer_' + fired[0])
+            self.count('oracle:C19.no_partial_success')
+            if not o.raised:
+                self.fail('C19.no_partial_success', f'{where} returned normally although the peer '
+                                                    f'failed at {fired[0]}')
+            if fired[0] == 'commit' and op.get('delete'):
+                exp.update(nodes=[], rels=[], single_model=None)
+            self._check_db(db, 'C19.no_partial_success', where + f' [peer fault {fired[0]}]')
+            return 'peer_failed'
+        if o.raised:
+            self.fail('C19.graph_export', f'{where} raised {o.exc!r}')
+
+        def cn(n):
+            props = {'name': n.name, 'full_name': n.full_name, 'type': n.type, 'ttc': str(n.ttc),
+                     'is_necessary': str(n.is_necessary), 'is_viable': str(n.is_viable),
+                     'compromised_by': str([a.name for a in n.compromised_by]),
+                     'defense_status': str(n.defense_status) if n.defense_status is not None else 'N/A'}
+            label = str(n.asset.name) if n.asset is not None else str(n.id)
+            return [[label], sorted((k, str(v)) for k, v in props.items())]
+        nodes = sorted(canon(cn(n)) for n in g.nodes)
+        # "one relationship per edge": an edge listed twice in children is one edge
+        rels = sorted({canon([cn(n), 'Relationship', cn(c)]) for n in g.nodes for c in n.children})
+        if op.get('delete'):
+            exp.update(nodes=nodes, rels=rels, single_model=None)
+        else:
+            exp.update(nodes=sorted(exp['nodes'] + nodes), rels=sorted(exp['rels'] + rels),
+                       single_model=None)
+        self._check_db(db, 'C19.graph_export', where)
+        self.key_events += self.prop == 'C19'
+        self.count('probe:attack_graph_ingested')
         return 'ok'
 
 
